@@ -16,7 +16,7 @@ TIER_SIZES = {
     "adv": (32, 240),
     "perm": (24, 200),
 }
-PERM_KINDS = ["AT", "PI", "AI", "TP", "ST", "WK"]
+PERM_KINDS = ["AT", "AI", "PI", "ST"]
 
 
 def jobs(tier, seed):
